@@ -64,6 +64,36 @@ func (c *Ctx) soleWriter(field string) *ssa.Function {
 // litFields returns, for a struct held in Alloc al, the values stored to each
 // field (by FieldAddr stores) and whether a whole-struct store exists.
 func litFields(al *ssa.Alloc) (fields map[string][]ssa.Value, whole []ssa.Value) {
+	return litFieldsOf(al, al.Block())
+}
+
+// declCell is the cell a registration function works on: its by-value parameter spilled to an Alloc,
+// or a pointer parameter (the caller's literal handed over by address).
+func declCell(v ssa.Value) (ssa.Value, bool) {
+	switch x := v.(type) {
+	case *ssa.Alloc:
+		return x, true
+	case *ssa.Parameter:
+		if _, isPtr := x.Type().Underlying().(*types.Pointer); isPtr {
+			return x, true
+		}
+	}
+	return nil, false
+}
+
+func cellFields(v ssa.Value) map[string][]ssa.Value {
+	switch x := v.(type) {
+	case *ssa.Alloc:
+		f, _ := litFields(x)
+		return f
+	case *ssa.Parameter:
+		f, _ := litFieldsOf(x, x.Parent().Blocks[0])
+		return f
+	}
+	return nil
+}
+
+func litFieldsOf(al ssa.Value, home *ssa.BasicBlock) (fields map[string][]ssa.Value, whole []ssa.Value) {
 	fields = map[string][]ssa.Value{}
 	// a store of the zero value that is the first store to its field, in the block of the (zeroed)
 	// Alloc itself, changes nothing: `T{F: nil}` is `T{}`
@@ -72,7 +102,7 @@ func litFields(al *ssa.Alloc) (fields map[string][]ssa.Value, whole []ssa.Value)
 		if x, ok := u.(*ssa.FieldAddr); ok {
 			_, name, _ := ir.FieldAddr(x)
 			for _, uu := range *x.Referrers() {
-				if st, ok := uu.(*ssa.Store); ok && st.Addr == x && st.Block() == al.Block() {
+				if st, ok := uu.(*ssa.Store); ok && st.Addr == x && st.Block() == home {
 					if cur := firstStore[name]; cur == nil || ir.IndexIn(st) < ir.IndexIn(cur) {
 						firstStore[name] = st
 					}
@@ -226,6 +256,10 @@ func structFieldSource(v ssa.Value) (src ssa.Value, field string, ok bool) {
 
 // literalArg: the call argument is a load of a composite-literal Alloc.
 func literalArg(v ssa.Value) *ssa.Alloc {
+	// `&T{...}` handed over by pointer: the literal's own cell
+	if al, ok := v.(*ssa.Alloc); ok && al.Comment == "complit" {
+		return al
+	}
 	ld, ok := v.(*ssa.UnOp)
 	if !ok || ld.Op != token.MUL {
 		return nil
@@ -837,7 +871,7 @@ func decl4(c *Ctx) {
 		var problems []string
 		// key ranges over all names of the container
 		sl, isRange := rangeElem(mu.Key)
-		cont, isAlloc := mu.Value.(*ssa.Alloc)
+		cont, isAlloc := declCell(mu.Value)
 		if !isAlloc {
 			problems = append(problems, "the inserted pointer is not the one container of this declaration")
 		}
@@ -845,7 +879,7 @@ func decl4(c *Ctx) {
 			problems = append(problems, "the insert is not inside a range over all names")
 		} else {
 			b, f, isF := ir.FieldLoad(sl)
-			if !isF || f != "Names" || b != ssa.Value(cont) {
+			if !isF || f != "Names" || b != cont {
 				problems = append(problems, "the names ranged over are not the container's Names")
 			}
 		}
@@ -873,20 +907,20 @@ func decl4(c *Ctx) {
 					return
 				}
 				if b, f, isF := ir.FieldAddr(st.Addr); isF && f == "options" && c.isNamed(b.Type(), "", "Cmd") {
-					if base, el, isApp := appendedSingle(st.Val); isApp && el == ssa.Value(cont) && c.cmdFieldLoad(base, "options") {
+					if base, el, isApp := appendedSingle(st.Val); isApp && el == cont && c.cmdFieldLoad(base, "options") {
 						listed = true
 					}
 				}
 			})
 			c.Check(listed, Q(fn)+":listed", mu.Pos(), "the indexed container is the one appended to the option list", "the indexed container is not the one appended to the option list")
 			// Names comes from the name-list function applied to the container's Name
-			fields, _ := litFields(cont)
+			fields := cellFields(cont)
 			okNames := false
 			var namesFn *ssa.Function
 			if vs := fields["Names"]; len(vs) == 1 {
 				if call, isCall := vs[0].(*ssa.Call); isCall {
 					if f := ir.Static(call); f != nil && len(call.Call.Args) == 1 {
-						if b, fl, isF := ir.FieldLoad(call.Call.Args[0]); isF && fl == "Name" && b == ssa.Value(cont) {
+						if b, fl, isF := ir.FieldLoad(call.Call.Args[0]); isF && fl == "Name" && b == cont {
 							okNames = true
 							namesFn = f
 						}
@@ -1239,10 +1273,10 @@ func decl5(c *Ctx) {
 	for _, mu := range writers[fn] {
 		key := Q(fn) + ":insert"
 		var problems []string
-		cont, isAlloc := mu.Value.(*ssa.Alloc)
+		cont, isAlloc := declCell(mu.Value)
 		if !isAlloc {
 			problems = append(problems, "the inserted pointer is not the container of this declaration")
-		} else if b, f, isF := ir.FieldLoad(mu.Key); !isF || f != "Name" || b != ssa.Value(cont) {
+		} else if b, f, isF := ir.FieldLoad(mu.Key); !isF || f != "Name" || b != cont {
 			problems = append(problems, "the key is not the container's Name")
 		}
 		if ok, why := c.lookupGuard(fn, "argsIdx", mu.Key, mu.Block()); !ok {
@@ -1295,7 +1329,7 @@ func decl5(c *Ctx) {
 					return
 				}
 				if b, f, isF := ir.FieldAddr(st.Addr); isF && f == "args" && c.isNamed(b.Type(), "", "Cmd") {
-					if base, el, isApp := appendedSingle(st.Val); isApp && el == ssa.Value(cont) && c.cmdFieldLoad(base, "args") {
+					if base, el, isApp := appendedSingle(st.Val); isApp && el == cont && c.cmdFieldLoad(base, "args") {
 						listed = true
 					}
 				}
